@@ -8,8 +8,10 @@ import (
 	"sync"
 
 	"seehuhn.de/go/sfnt/glyph"
+	"seehuhn.de/go/sfnt/opentype/anchor"
 	"seehuhn.de/go/sfnt/opentype/gdef"
 	"seehuhn.de/go/sfnt/opentype/gtab"
+	"seehuhn.de/go/sfnt/opentype/markarray"
 
 	"verif/harness/internal/gen/otlmini"
 	"verif/harness/internal/mon"
@@ -27,13 +29,13 @@ func init() {
 	mon.RegisterCfg("C06", mon.Config{
 		Rule: "calibration: the reference shaper reproduces the repository's pinned cases (testcases.Gsub sections 1,2,3,5 unflagged, section 4 flagged or reproduced, 16 GPOS and 46 lookup-flag cases re-typed); " +
 			"exhaustive: each case is one generated lookup list (primary subtable type/format x flag set from the 24 x 7 grid, 1-3 top-level lookups in random order, nested targets) applied to ALL 19531 glyph sequences of length 0..6 over {base A, base B, mark M, ligature L, unclassified X}; " +
-			"random: lists of up to 12 lookups over alphabets of up to 300 glyph ids with random GDEF, 10 sequences of length <= 40 each; " +
+			"(every fourth list of the exhaustive part uses glyph 0 in the role of X); random: lists of up to 12 lookups over alphabets of up to 300 glyph ids (glyph 0 among them in 4 of 9 alphabets) with random GDEF (also glyph class values beyond 4, up to 120 mark glyph sets, sets with up to 2300 glyphs), 10 sequences of length <= 40 each; mark and base anchors on both sides of the baseline, mark anchors also at the origin; " +
 			"every Context.Apply result is compared glyph by glyph (gid, text, x/y offset, advance) with the reference; evaluations = judged applications, distinct = distinct (list, sequence) pairs",
 		Assumptions: []string{
 			"the reference shaper (written from OpenType chapter 2/GSUB/GPOS and testcases/gsub.go sections 1-3) is the specification of 'straightforward'; it is calibrated against all pinned cases in every run",
 			"cases the reference flags as undefined are skipped and counted: a nested lookup changed a glyph an enclosing match skipped and a later action depends on it, more than 60 nested actions, out-of-range lookup/sequence/class indices, GSUB 8 forward/backward disagreement, ambiguous attachment target, attachment on a glyph that already has an offset, unimplemented positioning data",
-			"GSUB inputs carry zero offsets/advances; GPOS inputs carry a width on non-mark glyphs and zero offsets",
-			"text is compared per glyph: a multiple substitution leaves the text on the first new glyph, a ligature concatenates the text of its components",
+			"GSUB inputs carry zero offsets/advances; GPOS inputs carry a width on non-mark glyphs (one random alphabet in 6: also on every third mark glyph) and zero offsets",
+			"text is compared per glyph: a multiple substitution leaves the text on the first new glyph, a ligature concatenates the text of its components; input glyphs carry one unique rune each, in a quarter of the random cases every third glyph carries no text and every third two runes",
 		},
 	}, runC06)
 }
@@ -41,19 +43,27 @@ func init() {
 var c06allKinds = append(append([]shaper.Kind(nil), otlmini.GsubKinds...), otlmini.GposKinds...)
 
 var (
-	c06seqOnce sync.Once
-	c06seqs    [][]glyph.ID
+	c06seqOnce [2]sync.Once
+	c06seqs    [2][][]glyph.ID
 )
 
 // c06sequences returns all 19531 sequences of length 0..6 over the five input
-// glyphs of the small alphabet.
-func c06sequences() [][]glyph.ID {
-	c06seqOnce.Do(func() {
+// glyphs of the small alphabet (zero: of the variant whose unclassified
+// glyph is glyph 0).
+func c06sequences(zero bool) [][]glyph.ID {
+	v := 0
+	if zero {
+		v = 1
+	}
+	c06seqOnce[v].Do(func() {
 		alpha := otlmini.Small().In
+		if zero {
+			alpha = otlmini.SmallX(0).In
+		}
 		var rec func(prefix []glyph.ID, n int)
 		rec = func(prefix []glyph.ID, n int) {
 			if len(prefix) == n {
-				c06seqs = append(c06seqs, append([]glyph.ID(nil), prefix...))
+				c06seqs[v] = append(c06seqs[v], append([]glyph.ID(nil), prefix...))
 				return
 			}
 			for _, g := range alpha {
@@ -64,15 +74,27 @@ func c06sequences() [][]glyph.ID {
 			rec(nil, n)
 		}
 	})
-	return c06seqs
+	return c06seqs[v]
 }
 
 // c06input builds the input run: a unique rune per glyph; for GPOS lists a
-// width on every non-mark glyph.
-func c06input(a *otlmini.Alphabet, gids []glyph.ID, gpos bool) []glyph.Info {
+// width on every non-mark glyph (and on some marks, if the alphabet says so).
+// With textShapes every third glyph carries no text and every third carries
+// two runes (shapes that earlier lookups of a list leave behind anyway: a
+// multiple substitution leaves glyphs without text, a ligature one with
+// several runes).
+func c06input(a *otlmini.Alphabet, gids []glyph.ID, gpos, textShapes bool) []glyph.Info {
 	seq := make([]glyph.Info, len(gids))
 	for i, gid := range gids {
 		seq[i] = glyph.Info{GID: gid, Text: []rune{rune(0x100 + i)}}
+		if textShapes {
+			switch i % 3 {
+			case 1:
+				seq[i].Text = nil
+			case 2:
+				seq[i].Text = []rune{rune(0x100 + i), rune(0x1100 + i)}
+			}
+		}
 		if gpos {
 			seq[i].Advance = a.Width(gid)
 		}
@@ -312,6 +334,8 @@ type c06stats struct {
 	flagsSeen map[string]int
 	changed   int
 	panics    int
+
+	textShapes bool // inputs with empty / two-rune texts (see c06input)
 }
 
 func (s *c06stats) add(st *shaper.Stats) {
@@ -384,7 +408,7 @@ func (s *c06stats) flush(k *mon.Case, prefix string) {
 // reference and compares.  It returns false when the caller should stop
 // (too many panics).
 func c06check(k *mon.Case, st *c06stats, a *otlmini.Alphabet, list *otlmini.List, gids []glyph.ID, desc *string) bool {
-	in := c06input(a, gids, list.Gpos)
+	in := c06input(a, gids, list.Gpos, st.textShapes)
 	ref := shaper.Apply(list.LL, a.Gdef, list.Lookups, in)
 	var out []glyph.Info
 	libIn := c06copy(in)
@@ -461,6 +485,10 @@ func runC06(c *mon.Ctx) {
 		kind := c06allKinds[(i+rot)%nKinds]
 		fs := otlmini.FlagSet((i/nKinds + i%nKinds + rot) % int(otlmini.NumFlagSets))
 		alpha := otlmini.Small()
+		zero := (i/nKinds)%4 == 3 // the unclassified glyph is glyph 0
+		if zero {
+			alpha = otlmini.SmallX(0)
+		}
 		g := &otlmini.Gen{R: r, A: alpha}
 		if r.IntN(3) == 0 {
 			g.MaxSeq = 4 // longer rule inputs: room for a skipped glyph inside a three-component match
@@ -471,7 +499,7 @@ func runC06(c *mon.Ctx) {
 		desc := c06describe(list.LL, list.Lookups, alpha.Gdef)
 		k.Input([]byte(desc))
 		st := &c06stats{undefined: map[string]int{}}
-		seqs := c06sequences()
+		seqs := c06sequences(zero)
 		for _, gids := range seqs {
 			if !c06check(k, st, alpha, list, gids, &desc) {
 				break
@@ -481,6 +509,13 @@ func runC06(c *mon.Ctx) {
 		st.flush(k, "")
 		k.DistinctCount(len(seqs))
 		k.Class("list-primary:" + kind.String())
+		if zero {
+			k.Class("exhaustive:alphabet-with-glyph-0")
+			if st.changed > 0 {
+				k.Class("exhaustive:alphabet-with-glyph-0:output-differs-from-input")
+			}
+		}
+		c06anchorClasses(k, st, list, "")
 		k.Class(fmt.Sprintf("list-top-level-lookups:%d", nTop))
 		if 2*st.judged >= len(seqs) {
 			k.Class("list-majority-judged:" + kind.String())
@@ -506,7 +541,7 @@ func runC06(c *mon.Ctx) {
 		list := g.GenList(kind, fs, 1+r.IntN(6), 1+r.IntN(3), false)
 		desc := c06describe(list.LL, list.Lookups, alpha.Gdef)
 		k.Input([]byte(desc))
-		st := &c06stats{undefined: map[string]int{}}
+		st := &c06stats{undefined: map[string]int{}, textShapes: r.IntN(4) == 0}
 		all := alpha.All()
 		for j := 0; j < 10; j++ {
 			gids := c06randomSeq(r, alpha, all)
@@ -521,6 +556,8 @@ func runC06(c *mon.Ctx) {
 		if alpha.Gdef == nil {
 			k.Class("random-no-gdef")
 		}
+		c06anchorClasses(k, st, list, "random:")
+		c06alphabetClasses(k, st, alpha, list)
 		k.Class(fmt.Sprintf("random-list-lookups:%d", len(list.LL)))
 		k.Sample(map[string]any{"primary": kind.String(), "alphabet": n, "lookups": len(list.LL), "judged": st.judged, "undefined": st.undefined})
 	})
@@ -535,7 +572,113 @@ func runC06(c *mon.Ctx) {
 	c.Require("skipped-glyphs-inside-match", "ligature-later-candidate-across-2-skipped",
 		"calib:gsub-section1-reproduced", "calib:gsub-section2-reproduced", "calib:gsub-section3-reproduced",
 		"calib:gsub-section5-reproduced", "calib:gpos-reproduced", "calib:flags-reproduced",
-		"nested-depth:1", "nested-depth:2")
+		"nested-depth:1", "nested-depth:2",
+		"exhaustive:alphabet-with-glyph-0:output-differs-from-input",
+		"random:glyph-0-in-input-alphabet:output-differs-from-input", "random:glyph-0-in-output-alphabet",
+		"attach:mark-anchor-at-origin", "attach:mark-anchor-on-baseline", "attach:mark-anchor-below-baseline",
+		"attach:base-anchor-on-baseline", "attach:base-anchor-below-baseline",
+		"random:attach:mark-anchor-at-origin", "random:attach-with-mark-advances",
+		"random:input-text-shapes:ligature-matched", "random:input-text-shapes:multiple-substitution-matched",
+		"random:gdef-glyph-class>4", "random:gdef->=20-mark-glyph-sets", "random:gdef-mark-glyph-set->=300-glyphs")
+}
+
+// c06anchorClasses records attachment lookups whose mark anchors lie at the
+// origin, on or below the baseline (the lists that matched at least once).
+func c06anchorClasses(k *mon.Case, st *c06stats, list *otlmini.List, prefix string) {
+	if st.matches[shaper.Gpos4_1]+st.matches[shaper.Gpos6_1] == 0 {
+		return
+	}
+	for _, lt := range list.LL {
+		for _, s := range lt.Subtables {
+			var marks []markarray.Record
+			var rows [][]anchor.Table
+			switch s := s.(type) {
+			case *gtab.Gpos4_1:
+				marks, rows = s.MarkArray, s.BaseArray
+			case *gtab.Gpos6_1:
+				marks, rows = s.Mark1Array, s.Mark2Array
+			default:
+				continue
+			}
+			for _, m := range marks {
+				switch {
+				case m.X == 0 && m.Y == 0:
+					k.Class(prefix + "attach:mark-anchor-at-origin")
+				case m.Y == 0:
+					k.Class(prefix + "attach:mark-anchor-on-baseline")
+				case m.Y < 0:
+					k.Class(prefix + "attach:mark-anchor-below-baseline")
+				}
+			}
+			for _, row := range rows {
+				for _, b := range row {
+					switch {
+					case b.X == 0 && b.Y == 0:
+					case b.Y == 0:
+						k.Class(prefix + "attach:base-anchor-on-baseline")
+					case b.Y < 0:
+						k.Class(prefix + "attach:base-anchor-below-baseline")
+					}
+				}
+			}
+		}
+	}
+}
+
+// c06alphabetClasses records the alphabet shapes of the random part.
+func c06alphabetClasses(k *mon.Case, st *c06stats, a *otlmini.Alphabet, list *otlmini.List) {
+	for _, g := range a.In {
+		if g == 0 {
+			k.Class("random:glyph-0-in-input-alphabet")
+			if st.changed > 0 {
+				k.Class("random:glyph-0-in-input-alphabet:output-differs-from-input")
+			}
+		}
+	}
+	for _, g := range a.Out {
+		if g == 0 {
+			k.Class("random:glyph-0-in-output-alphabet")
+		}
+	}
+	if st.textShapes && st.judged > 0 {
+		k.Class("random:input-text-shapes")
+		if st.matches[shaper.Gsub4_1] > 0 {
+			k.Class("random:input-text-shapes:ligature-matched")
+		}
+		if st.matches[shaper.Gsub2_1] > 0 {
+			k.Class("random:input-text-shapes:multiple-substitution-matched")
+		}
+	}
+	if a.Gdef == nil {
+		return
+	}
+	for _, g := range c06sortedClassKeys(a.Gdef.GlyphClass) {
+		if a.Gdef.GlyphClass[g] > 4 {
+			k.Class("random:gdef-glyph-class>4")
+			break
+		}
+	}
+	if len(a.Gdef.MarkGlyphSets) >= 20 {
+		k.Class("random:gdef->=20-mark-glyph-sets")
+	}
+	for _, set := range a.Gdef.MarkGlyphSets {
+		if len(set) >= 300 {
+			k.Class("random:gdef-mark-glyph-set->=300-glyphs")
+			break
+		}
+	}
+	if a.MarkAdvance && list.Gpos && st.matches[shaper.Gpos4_1]+st.matches[shaper.Gpos6_1] > 0 {
+		k.Class("random:attach-with-mark-advances")
+	}
+}
+
+func c06sortedClassKeys(cd map[glyph.ID]uint16) []glyph.ID {
+	keys := make([]glyph.ID, 0, len(cd))
+	for g := range cd {
+		keys = append(keys, g)
+	}
+	sort.Slice(keys, func(i, j int) bool { return keys[i] < keys[j] })
+	return keys
 }
 
 // c06randomSeq draws a sequence of length 0..40, mostly over the input
